@@ -162,7 +162,11 @@ def set_pre_grads(leaves, pre: dict) -> dict:
     for i, leaf in enumerate(leaves):
         vals = pre.get(str(i), pre.get(i))
         if vals is not None and leaf.requires_grad:
-            leaf.grad = torch.tensor(vals, dtype=leaf.dtype).reshape(leaf.shape)
+            base = torch.tensor(vals, dtype=leaf.dtype).reshape(leaf.shape)
+            if str(i) in pre.get("_strided", ()):
+                # a non-contiguous pre-existing .grad: one lane of a wider (fused) gradient buffer
+                base = torch.stack([base, base + 1.0], dim=-1)[..., 0]
+            leaf.grad = base
             before[i] = leaf.grad.clone()
         else:
             before[i] = None
@@ -175,4 +179,6 @@ def pre_grads(rng, prog: dict, p_some=0.5) -> dict:
         for i, lf in enumerate(prog["leaves"]):
             if lf["rg"] and rng.integers(0, 2):
                 pre[str(i)] = (rng.integers(-6, 7, size=P.numel(lf["shape"])) / 2.0).tolist()
+                if rng.integers(0, 3) == 0:
+                    pre.setdefault("_strided", []).append(str(i))
     return pre
